@@ -59,8 +59,8 @@ class Recorder:
         self.input_modified = False
 
     def _priv(self):
-        c = self.c
-        return {"bl": int(c._buf_len), "ff": bool(c._first_frame)}
+        import common
+        return common.stft_priv(self.c)
 
     def _arr(self, u, start, n):
         # the samples arrive in varying memory layouts (strided views, byte-swapped, ...): same values, same frames
